@@ -33,7 +33,9 @@ Theorem C07_front_annotated_results : forall env f fid rdocs rt u rs amb,
               map r_type rs = map Some (match t with TTuple ts => ts | _ => [t] end) /\
               Forall (fun r => r_id r = fid ++ K"/" ++ r_name r) rs.
 Proof. exact annotated_results. Qed.
-(* END TO END: whatever the docstring says, a function annotated "-> None" is written without any result *)
+(* END TO END: the result list the analyzer builds for a function annotated "-> None" is written without any result, whatever
+   names the docstring offers (under the CODE preference the reconciliation with docstring types keeps that list:
+   C14_result_code_preference_keeps_hints) *)
 Theorem C07_none_annotation_end_to_end : forall classes rmap nc env f fid rdocs u rs amb s,
   str_eqb (fn_name f) (K"__init__") = false -> fn_type f = Some (FRet MNone u) ->
   parse_results env f fid rdocs = Ok (rs, amb) ->
